@@ -136,6 +136,12 @@ pub fn parse_u64_digits<'a, Iter, const FORMAT: u128>(
     // Parse single digits at a time.
     for &c in iter {
         let digit = char_to_valid_digit_const(c, radix as u32);
+        // NOTE: the mantissa must hold exactly the `u64_step` digits that the
+        // exponent of `Number` was computed for: for radix 8 and 32 one more
+        // digit can still fit in 64 bits, but it must not be accumulated.
+        if !*overflowed && *step == 0 {
+            *overflowed = true;
+        }
         if !*overflowed {
             let result = mantissa.checked_mul(radix).and_then(|x| x.checked_add(digit as u64));
             if let Some(mant) = result {
